@@ -130,7 +130,7 @@ def main():
                  ("comp", "hist_be", "two"), ("imp", "hist_be", "two"),
                  ("redecl", "hist_be", "one"), ("func", "hist_be", "one"),
                  ("comp", "hist_cc_be", "one"), ("imp", "hist_cc_be", "one"), ("assembled", "hist_cc_be", "one")]
-    items = []
+    items, firsts = [], set()
     t0 = time.time()
     nq = 0
     for lib, func, enum in plan:
@@ -143,6 +143,7 @@ def main():
             rep.harness_error(f"history enumeration for {lib}/{func}/{enum}: {len(tuples)} models, expected {expected}")
         # consecutive tuples share their first edit: the memoised oracle of a chunk is reused within it
         chunk = max(4 if func.endswith("_be") else 1, len(tuples) // (48 if len(tuples) > 3000 else 32))
+        firsts.add(len(items))
         for i in range(0, len(tuples), chunk):
             items.append((lib, func, tuples[i:i + chunk]))
     rep.solver_time += time.time() - t0
@@ -151,7 +152,7 @@ def main():
     # longest items first: the pool hands items out one by one
     order = sorted(range(len(items)), key=lambda i: -len(items[i][2]) * (8 if items[i][1].endswith("_be") else 1))
     cols = dict(zip(order, run_parallel(work, [items[i] for i in order], a.jobs)))
-    for i in sorted(cols, key=lambda i: (i % 7, i)):  # merged in a fixed order that mixes the families (evidence samples)
+    for i in sorted(cols, key=lambda i: (i not in firsts, i)):  # the first item of every family first (evidence samples)
         rep.merge(cols[i])
     cov = rep.coverage
     nh = cov.get("histories", 0)
